@@ -3,7 +3,7 @@ C15 — a failed load leaves nothing behind.
 
 Fault enumeration (level P) over whole real loads (see lifecycle.py): every
 scope-provider / object-processor / model-processor call raises once
-(RuntimeError-like and TextXSemanticError flavours), plus loads failing by
+(RuntimeError-like, TextXSemanticError and KeyboardInterrupt-like flavours), plus loads failing by
 themselves (syntax error, unknown reference; main or imported file), with user
 classes on, single- and multi-file models, main model from a file or from a
 string with the other files reached through a global-repository provider, with
@@ -60,6 +60,8 @@ def main():
         for grepo in (False, True):
             for kind in (('runtime',) if quick else ('runtime', 'textx')):
                 items.append((case, 'plain', grepo, True, False, kind))
+            if case in ('single', 'two-files') and (grepo or not quick):
+                items.append((case, 'plain', grepo, True, False, 'interrupt'))
     for case in c14.FAIL_CASES:
         for grepo in (False, True):
             items.append((case, 'plain', grepo, False, False, 'runtime'))
